@@ -251,11 +251,17 @@ package gabi
 //@   ensures nonempty: result ==> len(pl) > 0 && len(pl) == len(publicKeys) && (len(keyshareServers) == 0 || len(keyshareServers) == len(pl))
 //@   ensures structs: result ==> forall i in 0..len(pl) :: elemstruct(pl[i], publicKeys[i])
 //@   ensures onechallenge: result ==> forall i in 0..len(pl) :: forall j in 0..len(pl) :: cfield(pl[i]) == cfield(pl[j])
+//@   ghost at createChallenge chal: val($r)
+//@   ghost at createChallenge flag: $3
+//@   ghost at createChallenge ctx: ref($0)
+//@   ghost at createChallenge nonce: ref($1)
+//@   ensures session: result ==> ghost(flag) == b2i(issig) && ghost(ctx) == ref(context) && ghost(nonce) == ref(nonce) && forall i in 0..len(pl) :: cfield(pl[i]) == ghost(chal)
 //@   ensures linked: result ==> forall i in 0..len(pl) :: forall j in 0..len(pl) :: (len(keyshareServers) == 0 || keyshareServers[i] == keyshareServers[j]) ==> skval(pl[i]) == skval(pl[j])
 //@   modifies heap("ProofD.cachedRangeStructures"), heap("revocation.Proof.Nu"), heap("revocation.Proof.Challenge"), heap("MV:map[string]"), heap("MP:map[string]"), heap("SignedAccumulator.Accumulator"), heap("rangeproof.Proof.MResponse"), heap("revocation.Proof.acc")
 //@   assert at VerifyWithChallenge samekey: $1 == publicKeys[$i]
 //@   loop 0 invariant 0 <= $i && $i <= len(pl) && len(pl) == len(publicKeys) && (len(keyshareServers) == 0 || len(keyshareServers) == len(pl)) && fresh(secretkeyResponses) && expectedChallenge != nil
 //@   loop 0 invariant forall j in 0..$i :: elemstruct(pl[j], publicKeys[j]) && cfield(pl[j]) == val(expectedChallenge)
+//@   loop 0 invariant ghost(chal) == val(expectedChallenge) && ghost(flag) == b2i(issig) && ghost(ctx) == ref(context) && ghost(nonce) == ref(nonce)
 //@   loop 0 invariant forall j in 0..$i :: in(secretkeyResponses, ite(len(keyshareServers) > 0, keyshareServers[j], "")) && secretkeyResponses[ite(len(keyshareServers) > 0, keyshareServers[j], "")] != nil && val(secretkeyResponses[ite(len(keyshareServers) > 0, keyshareServers[j], "")]) == skval(pl[j])
 //@   loop 0 invariant forall k in dom(secretkeyResponses) :: secretkeyResponses[k] != nil
 //@   loop 0 invariant len(keyshareServers) == 0 ==> kss == ""
